@@ -21,12 +21,12 @@ NCPU = 16
 
 COMMON_FLAGS = ['-std=c++17', '-g', '-fno-omit-frame-pointer', '-DFASTSCAPELIB_VERIF_HOOKS', '-pthread']
 FLAVOURS = {
-    'asan': ['-O1', '-fsanitize=address,undefined', '-fno-sanitize-recover=all', '-D_GLIBCXX_ASSERTIONS'],
+    'asan': ['-O1', '-fsanitize=address,undefined,float-cast-overflow', '-fno-sanitize-recover=all', '-D_GLIBCXX_ASSERTIONS'],
     'tsan': ['-O1', '-fsanitize=thread'],
     'plain': ['-O1'],
     # coverage-guided campaign (libFuzzer): clang; object-size is off because clang's UBSan raises false alarms on empty
     # classes with zero-length arrays
-    'fuzz': ['-O1', '-fsanitize=fuzzer,address,undefined', '-fno-sanitize-recover=all', '-fno-sanitize=object-size',
+    'fuzz': ['-O1', '-fsanitize=fuzzer,address,undefined,float-cast-overflow', '-fno-sanitize-recover=all', '-fno-sanitize=object-size',
              '-D_GLIBCXX_ASSERTIONS', '-DVF_FUZZ'],
 }
 # the flags users build with: optimised, assertions compiled out, no sanitizer (oracles only)
